@@ -257,22 +257,37 @@ def with_forwarded(fx, f, depth=1):
     return out
 
 
+def maker_operand(t, makers):
+    """the operand of call `t` that carries the value of interest of the maker it calls (argument + field path)"""
+    idx, proj = makers[t["callee"]] if t.get("callee") in makers else makers[t.get("resolved")]
+    if idx >= len(t["args"]):
+        return None
+    a = t["args"][idx]
+    if proj and a.get("k") in ("copy", "move"):
+        a = dict(a, p=list(a["p"]) + list(proj))
+    elif proj:
+        return None
+    return a
+
+
 def forwarding_closure(fx, makers, roots_fn, body_fn):
-    """makers: {callee name: index of the argument of interest}.  A crate-local function that hands one of its own
-    parameters, unmodified, to a maker at that argument is itself a maker for that parameter (a shared helper such as
-    `Environment::launch(self, actor)` between the entry points and the loop constructor).  Returns the closed table."""
-    out = dict(makers)
+    """makers: {callee name: (index of the argument of interest, field path inside it)} (a bare index means the whole
+    argument).  A crate-local function that hands one of its own parameters (or a field of it), unmodified, to a maker at
+    that place is itself a maker for that parameter (a shared helper such as `Environment::launch(self, actor)` between the
+    entry points and the loop constructor, or `create_loop` in front of `EventLoop::run(self)`).  Returns the closed table."""
+    out = {k: (v if isinstance(v, tuple) else (v, ())) for k, v in makers.items()}
     changed = True
     while changed:
         changed = False
         for g, _bi, t in all_calls(fx, lambda x: (x.get("callee") in out) or (x.get("resolved") in out)):
             if g["kind"] not in ("fn", "assoc_fn") or g["def"] in out:
                 continue
-            idx = out.get(t.get("callee"), out.get(t.get("resolved")))
-            if idx is None or idx >= len(t["args"]):
+            a = maker_operand(t, out)
+            if a is None:
                 continue
-            rs = roots_fn(body_fn(g), t["args"][idx])
-            if rs and all(r.kind == "arg" and not r.proj for r in rs) and len({r.site for r in rs}) == 1:
-                out[g["def"]] = next(iter(rs)).site - 1
+            rs = roots_fn(body_fn(g), a)
+            if rs and all(r.kind == "arg" for r in rs) and len({(r.site, tuple(r.proj)) for r in rs}) == 1:
+                r = next(iter(rs))
+                out[g["def"]] = (r.site - 1, tuple(e for e in r.proj if not str(e).startswith("<part:")))
                 changed = True
     return out
